@@ -1,8 +1,13 @@
 ----------------------------- MODULE Geometry -----------------------------
 (* lib/ext2fs/initialize.c (ext2fs_initialize) geometry arithmetic as mke2fs drives it, plus
    ext2fs_bg_has_super (closefs.c).  Properties C07 and C20.  All quantities < 2^31 (images <= 64 MiB).
-   cfg record: [bs, blocks (requested), iratio, isz, bpg (0 = default), resize, sparse, ss2, metabg, is64, ninodes (0 = from ratio)]
-   Compute(cfg) = [err, blocks, first, bpg, gdc, ipg, itb, rsv, descb, metabg, inodes, backups]                     *)
+   cfg record: [bs, blocks (requested), iratio, isz, bpg (0 = default), resize, sparse, ss2, metabg, is64, ninodes (0 = from ratio),
+                nbsb (-E num_backup_sb, 0..2; mke2fs default 2), rszto (-E resize=<blocks>, 0 = not given),
+                dev (FALSE = the behaviour the property asks for; TRUE = with the named deviation of the code, see Body)]
+   Compute(cfg) = [err, blocks, first, bpg, gdc, ipg, itb, rsv, descb, metabg, resize, inodes, backups, bgs]
+   Further down: what ext2fs_create_resize_inode must put into inode 7 for a geometry (ResizeDindMap, ResizeBackupList,
+   ResizeIBlocks), the option families of mke2fs whose effect is a plain superblock/inode field (Req...), and the
+   catalogue of boundary cells the conformance universe is enumerated from (Ss2Cells, OptionCells).              *)
 EXTENDS Naturals, Sequences, FiniteSets, TLC
 CeilDiv(a, b) == (a + b - 1) \div b
 Max(a, b) == IF a > b THEN a ELSE b
@@ -16,6 +21,34 @@ BgHasSuper(g, sparse, ss2, bk) ==
    ELSE IF g <= 1 \/ ~sparse THEN TRUE
    ELSE IF g % 2 = 0 THEN FALSE
    ELSE IsPow(g, 3) \/ IsPow(g, 5) \/ IsPow(g, 7)
+
+\* ---- sparse_super2: the two backup slots s_backup_bgs
+\* misc/mke2fs.c main(): fs_param.s_backup_bgs = <<1 if num_backup_sb >= 1, ~0 if num_backup_sb >= 2>> (~0 = NoGroup: above every group)
+NoGroup == 2147483647
+NumBackupSb == 0..2                                  \* parse_extended_opts rejects num_backup_sb > 2
+Ss2Param(nb) == <<IF nb >= 1 THEN 1 ELSE 0, IF nb >= 2 THEN NoGroup ELSE 0>>
+\* ext2fs_initialize "Set up the locations of the backup superblocks": clip both slots to the last group, drop a duplicate,
+\* sort ascending -- so an empty slot (0) always comes FIRST and a single backup sits in slot [2]
+Ss2Slots(nb, gdc) ==
+   LET p  == Ss2Param(nb)
+       a  == Min(p[1], gdc - 1)
+       b0 == Min(p[2], gdc - 1)
+       b  == IF a = b0 THEN 0 ELSE b0
+   IN IF a > b THEN <<b, a>> ELSE <<a, b>>
+\* ext2fs_initialize, last-group overhead: "we have to do this manually since super->s_backup_bgs hasn't been set up yet"
+Ss2LastHasBg(nb, gdc) == IF gdc = 2 THEN Ss2Param(nb)[1] # 0 ELSE Ss2Param(nb)[2] # 0
+Ss2Backups(slots) == {0} \cup ({slots[1], slots[2]} \ {0})
+
+\* -E resize=<blocks> (misc/mke2fs.c parse_extended_opts): reserved GDT blocks for growing to rszto blocks; only a positive
+\* result is stored in the parameter block (and switches resize_inode on); 0 = fall back to the library default
+RszGdb(c) ==
+   IF c.rszto = 0 THEN 0
+   ELSE LET bpg  == IF c.bpg # 0 THEN c.bpg ELSE c.bs * 8
+            dpb  == c.bs \div (IF c.is64 THEN 64 ELSE 32)
+            gdc0 == CeilDiv(c.blocks, bpg)
+            d0   == CeilDiv(gdc0, dpb)
+            v    == CeilDiv(CeilDiv(c.rszto, bpg), dpb)
+        IN IF v <= d0 THEN 0 ELSE Min(v - d0, c.bs \div 4)
 
 \* cfg: [bs, blocks, iratio, isz, bpg (0 = default), resize, sparse, metabg, is64]
 CalcRsvGdt(c, blocks, first, bpg, descblks) ==
@@ -50,11 +83,17 @@ Body(c, blocks, bpg) ==
       LET ipgc == Min(ipg0, 65536 - c.bs \div c.isz)
           fx   == IpgFix(c, ipgc, gdc)
           ipg  == fx[1]  itb == fx[2]
-          rsv0 == IF c.resize THEN CalcRsvGdt(c, blocks, first, bpg, descb) ELSE 0
+          rszp == RszGdb(c)                                                   \* set_field(): a non-zero parameter wins over the computed default
+          rsz  == c.resize \/ rszp > 0
+          rsv0 == IF rszp > 0 THEN rszp ELSE IF rsz THEN CalcRsvGdt(c, blocks, first, bpg, descb) ELSE 0
           mbg  == c.metabg \/ (rsv0 + descb > (bpg * 3) \div 4)
-          rsv  == IF rsv0 + descb > (bpg * 3) \div 4 THEN 0 ELSE rsv0
+          \* at the meta_bg switch the reserved GDT blocks go away.  Named deviation (c.dev): the code says
+          \* set_field(s_reserved_gdt_blocks, 0), which keeps a non-zero PARAMETER value, so a count stored by -E resize= survives
+          \* the switch although resize_inode is cleared (known finding rsv_gdt_survives_metabg_switch)
+          rsv  == IF rsv0 + descb > (bpg * 3) \div 4 THEN (IF c.dev /\ rszp > 0 THEN rszp ELSE 0) ELSE rsv0
           ovh  == 3 + itb + rsv + (IF mbg THEN 1 ELSE descb)
-          hasbg == IF c.ss2 THEN TRUE ELSE BgHasSuper(gdc - 1, c.sparse, FALSE, <<0, 0>>)   \* mke2fs passes s_backup_bgs = {1, ~0}
+          hasbg == IF c.ss2 THEN Ss2LastHasBg(c.nbsb, gdc) ELSE BgHasSuper(gdc - 1, c.sparse, FALSE, <<0, 0>>)
+          slots == IF c.ss2 THEN Ss2Slots(c.nbsb, gdc) ELSE <<0, 0>>
           ovl  == 2 + itb + (IF hasbg THEN 1 + descb + rsv ELSE 0)
           rem  == (blocks - first) % bpg
       IN IF ovh > bpg THEN [k |-> "err", err |-> "TOO_MANY_INODES"]
@@ -63,7 +102,9 @@ Body(c, blocks, bpg) ==
          ELSE [k |-> "done", g |->
                [err |-> "", blocks |-> blocks, first |-> first, bpg |-> bpg, gdc |-> gdc, ipg |-> ipg,
                 itb |-> itb, rsv |-> rsv, descb |-> descb, metabg |-> mbg, inodes |-> ipg * gdc,
-                backups |-> IF c.ss2 THEN {0, Min(1, gdc - 1), gdc - 1}
+                resize |-> rsz /\ ~(rsv0 + descb > (bpg * 3) \div 4),      \* the meta_bg switch clears resize_inode
+                bgs |-> slots,
+                backups |-> IF c.ss2 THEN Ss2Backups(slots)
                             ELSE {g \in 0..(gdc - 1) : BgHasSuper(g, c.sparse, FALSE, <<0, 0>>)}]]
 
 \* What the loop makes of a group size p when it (re)starts at (requested blocks, p): a trim is followed by one more body
@@ -101,10 +142,67 @@ GeometryOK(c, g) ==
      /\ g.descb = CeilDiv(g.gdc, c.bs \div (IF c.is64 THEN 64 ELSE 32))
      /\ 3 + g.itb + g.rsv + (IF g.metabg THEN 1 ELSE g.descb) <= g.bpg               \* a group can hold its own metadata
      /\ LET rem == (g.blocks - g.first) % g.bpg IN rem = 0 \/ rem >= 2 + g.itb + 50   \* last group large enough
-     /\ 0 \in g.backups /\ g.backups \subseteq 0..(g.gdc - 1) /\ (g.gdc > 1 => 1 \in g.backups)
-     /\ (c.ss2 => Cardinality(g.backups) <= 3)
+     /\ 0 \in g.backups /\ g.backups \subseteq 0..(g.gdc - 1) /\ (g.gdc > 1 /\ (c.ss2 => c.nbsb >= 1) => 1 \in g.backups)
+     /\ (c.ss2 => /\ Cardinality(g.backups) = 1 + Min(c.nbsb, g.gdc - 1)                  \* as many backups as asked for, while groups last
+                  /\ g.bgs[1] <= g.bgs[2] /\ (g.bgs[1] = g.bgs[2] => g.bgs[2] = 0)          \* sorted pair, no duplicate
+                  /\ g.bgs[2] < g.gdc
+                  /\ g.backups = {b \in 0..(g.gdc - 1) : BgHasSuper(b, c.sparse, TRUE, g.bgs)}  \* closefs.c agrees with the slots
+                  /\ (g.gdc >= 2 => (Ss2LastHasBg(c.nbsb, g.gdc) <=> (g.gdc - 1) \in g.backups)))  \* the overhead guess made before the slots exist is right
+     /\ (~c.ss2 => g.bgs = <<0, 0>>)
+     /\ (g.resize => ~g.metabg)
+     /\ (~c.dev => (g.rsv > 0 => g.resize))                                           \* reserved GDT blocks only with a resize inode
      /\ (c.sparse /\ ~c.ss2 => \A b \in g.backups : b <= 1 \/ IsPow(b, 3) \/ IsPow(b, 5) \/ IsPow(b, 7))
      /\ (~c.sparse /\ ~c.ss2 => g.backups = 0..(g.gdc - 1))
+
+\* ------------------------------------------------------------------ the resize inode (lib/ext2fs/res_gdt.c ext2fs_create_resize_inode)
+\* Inode 7 owns one double-indirect block.  Its slot (descb + r) % (bs/4) maps reserved GDT block r (0-based), which sits right
+\* behind the descriptor blocks of group 0; nothing else is mapped.
+ResizeDindMap(bs, g) == {<<(g.descb + r) % (bs \div 4), g.first + 1 + g.descb + r>> : r \in 0..(g.rsv - 1)}
+\* Each reserved GDT block is itself an indirect block that lists its own copy in every group holding a backup (all groups but 0
+\* that ext2fs_bg_has_super names: powers of 3/5/7, every group, or the sparse_super2 slots), in ascending group order, without
+\* gaps, as <<position, distance from the primary block>>.
+ResizeBackupList(g) == LET B == g.backups \ {0} IN {<<Cardinality({h \in B : h <= b}), b * g.bpg>> : b \in B}
+\* i_blocks (512-byte units): the double-indirect block, every reserved GDT block and every listed backup copy
+ResizeIBlocks(bs, g) == (1 + g.rsv * Cardinality(g.backups)) * (bs \div 512)
+
+\* ------------------------------------------------------------------ option families whose effect is one plain field
+RECURSIVE Log2Of(_)
+Log2Of(n) == IF n <= 1 THEN 0 ELSE 1 + Log2Of(n \div 2)
+DefaultFlexSize == 16                                   \* mke2fs: profile "flex_bg_size", default 16
+ReqLogFlex(flexfeature, G) == IF ~flexfeature THEN 0 ELSE Log2Of(IF G = 0 THEN DefaultFlexSize ELSE G)
+\* -m <percent> (default 5): s_r_blocks_count = percent of the block count, rounded down.  When ext2fs_initialize trims the last
+\* group it rescales through a double-precision ratio, which may lose up to two blocks (never gains one).  When the group size
+\* was reduced on the way (inode-dense retry path) the count may stem from an intermediate, smaller block count: then only the
+\* upper bound is claimed (see the check's assumptions).
+ReqRBlocksOK(pct, reqblocks, finalblocks, rb, retried) ==
+   IF retried THEN 100 * rb <= pct * finalblocks
+   ELSE IF finalblocks = reqblocks THEN rb = (pct * reqblocks) \div 100
+   ELSE 100 * rb <= pct * finalblocks /\ 100 * rb > pct * finalblocks - 200
+\* journal size: -J size=<MiB> (misc/util.c figure_journal_size) or ext2fs_default_journal_size of the final block count
+DefaultJournalBlocks(b) == IF b < 2048 THEN 0 ELSE IF b < 32768 THEN 1024 ELSE IF b < 262144 THEN 4096 ELSE IF b < 524288 THEN 8192 ELSE 16384
+ReqJournalBlocks(jmib, bs, b) == IF b < 2048 THEN 0 ELSE IF jmib > 0 THEN (jmib * 1024) \div (bs \div 1024) ELSE DefaultJournalBlocks(b)
+\* quota inodes: -O quota creates user and group (and project when the project feature is asked for) unless -E quotatype= names them
+QuotaTypes == {"usr", "grp", "prj"}
+ReqQuota(quotafeature, projectfeature, qt) ==
+   IF ~quotafeature THEN {} ELSE IF qt # {} THEN qt ELSE {"usr", "grp"} \cup (IF projectfeature THEN {"prj"} ELSE {})
+
+\* ------------------------------------------------------------------ boundary catalogue the conformance universe is enumerated from
+GroupClasses == {1, 2, 3, 5}                            \* one group, two, three, more: where the sparse_super2 slots change shape
+Ss2Cells == {[nb |-> nb, groups |-> n, resize |-> rz, slots |-> Ss2Slots(nb, n), lastbg |-> Ss2LastHasBg(nb, n)] :
+                nb \in NumBackupSb, n \in GroupClasses, rz \in {0, 1}}
+\* value lattices of the extended-option families (accepted boundary values; the first value beyond is listed as "reject")
+OptionCells ==                                          \* numeric families
+   {[fam |-> "flex", v |-> G] : G \in {1, 2, 4, 256}} \cup {[fam |-> "flex_reject", v |-> 3]}
+   \cup {[fam |-> "mpct", v |-> m] : m \in {0, 1, 50}} \cup {[fam |-> "mpct_reject", v |-> 51]}
+   \cup {[fam |-> "jsize", v |-> j] : j \in {1, 4}}
+   \cup {[fam |-> "rszfactor", v |-> k] : k \in {3, 40, 80}}
+   \cup {[fam |-> "nbsb_reject", v |-> 3]}
+   \cup {[fam |-> f, v |-> 0] : f \in {"revision0", "jloc", "offset", "packed", "rootowner", "lazy0_nodiscard", "lazy1", "tree"}}
+RaidCells == {[stride |-> 4, stripe |-> 8], [stride |-> 16, stripe |-> 0], [stride |-> 3, stripe |-> 7]}
+QuotaCells == (SUBSET QuotaTypes) \ {{}}
+\* -T usage types of the tree's tests/mke2fs.conf.in: inode_ratio / inode_size they set (0 = the [defaults] value stays)
+UsageCells == {[name |-> "news", iratio |-> 4096, isz |-> 0], [name |-> "largefile", iratio |-> 1048576, isz |-> 0],
+               [name |-> "largefile4", iratio |-> 4194304, isz |-> 0], [name |-> "hurd", iratio |-> 0, isz |-> 128]}
 
 \* closed form of the backup set used by C20: powers of 3, 5, 7 below n
 RECURSIVE Pows(_, _, _)
